@@ -423,10 +423,7 @@ type RawStub struct {
 
 // NewRawStub starts a raw stub on 127.0.0.1.
 func NewRawStub(name string) *RawStub {
-	ln, err := net.Listen("tcp", "127.0.0.1:0")
-	if err != nil {
-		panic(err)
-	}
+	ln := ListenRetry()
 	s := &RawStub{Name: name, ln: ln, URL: "http://" + ln.Addr().String(), byID: map[string][]int{}, scripts: map[string]*RawReply{}, aborted: map[string]int{}, done: make(chan struct{}), conns: map[net.Conn]struct{}{}}
 	s.wg.Add(1)
 	go s.accept()
